@@ -75,6 +75,10 @@ func (core *JApiCore) getIncludedFilePath(keyword *scanner.Lexeme) (string, *jer
 		if info.IsDir() {
 			return "", incorrectParameter(keyword, path, "is a directory")
 		}
+		if !info.Mode().IsRegular() {
+			// A named pipe, a socket, a device: reading it may never end.
+			return "", incorrectParameter(keyword, path, "is not a regular file")
+		}
 		return absolutePath, nil
 	}
 
